@@ -318,7 +318,10 @@ def post_order_names(names):
     N, Cm = lib()['Name'], lib()['Component']
     prod = []
     for nm in names:
-        fn = N.from_str(ref_canonical_uri(nm))               # library-produced FormalName (list of bytearray)
+        try:
+            fn = N.from_str(ref_canonical_uri(nm))           # library-produced FormalName (list of bytearray)
+        except Exception as e:
+            return [('C09:canonical-uri-not-parsed', f'Name.from_str({ref_canonical_uri(nm)!r}) raised {type(e).__name__}: {e}')]
         prod.append((fn, b''.join(bytes(c) for c in fn), canon_key(nm)))
     a = sorted(prod, key=lambda e: e[0])                     # list-of-components comparison
     b = sorted(prod, key=lambda e: e[1])                     # concatenated name value, byte-wise
